@@ -63,13 +63,13 @@ def combos(tier):
     return out
 
 
-def run_one(spec, cfg, sc, faults=(), region=None, lin_factor=(), lin_solve=()):
+def run_one(spec, cfg, sc, faults=(), region=None, lin_factor=(), lin_solve=(), region_kinds=None):
     from pgfmc.drive.problems import FaultProblem
 
     holder = {}
 
     def wrap(p):
-        holder["fp"] = FaultProblem(p, faults=faults, region=region)
+        holder["fp"] = FaultProblem(p, faults=faults, region=region, region_kinds=region_kinds)
         return holder["fp"]
 
     fl = R.FaultLinear(fail_factor=lin_factor, fail_solve=lin_solve)
@@ -123,6 +123,9 @@ def cases(tier, seed):
             CAPPED = True
         for ri, reg in enumerate(REGIONS):
             out.append({"spec": spec, "cfg": cfg, "sc": sc, "region": reg})
+        # a function that is not defined AT the starting point (persistent, one kind at a time): dedicated initial-point error
+        for kind in KINDS:
+            out.append({"spec": spec, "cfg": cfg, "sc": sc, "start_kind": kind})
         # regions placed on the fault-free trajectory: a ball around the k-th accepted iterate (user space)
         acc = [t.it_out for t in base.rec.trials if t.accepted]
         vw = np.array(base.weights["vw"], dtype=int) if base.weights else np.zeros(spec["n"], dtype=int)
@@ -163,6 +166,18 @@ def in_region(reg, x):
 def run_case(case):
     spec, cfg, sc = case["spec"], case["cfg"], case["sc"]
     faults = [tuple(f) for f in case.get("f", [])]
+    if case.get("start_kind"):
+        reg = {"kind": "ball", "c": [float(v) for v in spec["x0"]], "r": 1e-9}
+        ctx = run_one(spec, cfg, sc, region=reg, region_kinds=[case["start_kind"]])
+        rec = ctx.rec
+        oc = R.outcome_of(rec)
+        viol = []
+        if ctx.fp.fired and not (rec.exc is not None and rec.exc["msg"].startswith("Failed to evaluate initial iterate")):
+            what = (rec.exc["cls"] + ":" + rec.exc["msg"][:40]) if rec.exc else oc
+            viol.append(M.V(f"C07|start_point_undefined|{case['start_kind']}|{what.split(':')[0]}",
+                            f"{case['start_kind']} is not defined at the starting point, but solve() gave {what} instead of the initial-point error"))
+        return {"outcome": "startpoint:" + oc, "key": f"{spec['tag']}|{G.cfg_key(cfg)}|startpoint|{case['start_kind']}" if ctx.fp.fired else None,
+                "violations": viol, "stats": {"fired": len(ctx.fp.fired)}}
     region = case.get("region")
     if region is not None and in_region(region, spec["x0"]):
         return {"outcome": "region-contains-start", "key": None, "violations": [], "stats": {}}
